@@ -938,6 +938,64 @@ pub fn run_c04(ctx: &Ctx, rep: &mut Report) {
         }
     }
     rep.tally_n("pattern_lists", n as u64);
+    // (c) automata with more than 2^16 states (state identifiers no longer
+    // fit 16 bits, tables are megabytes): end-to-end differential plus the
+    // reference model on one of the searchers. No product walk (it would be
+    // tens of millions of transitions per list).
+    let huge = ctx.tier.pick(0, 1, 6);
+    for i in 0..huge {
+        let mut rng = root.fork(0xB16 + i as u64);
+        let np = rng.range(2500, 3200);
+        let alpha = b"abcd".to_vec();
+        let pats: Vec<Vec<u8>> = (0..np)
+            .map(|_| {
+                let l = rng.range(24, 40);
+                gen::rand_string(&mut rng, &alpha, l)
+            })
+            .collect();
+        let kind = Kind::ALL[(ctx.shard + i) % 3];
+        let anchored = (ctx.shard / 3 + i) % 4 == 3;
+        let pre = rng.chance(1, 2);
+        let cfgs = e2e_cfgs(&mut rng, kind, false, pre, anchored);
+        let mut hays: Vec<(Vec<u8>, (usize, usize))> = vec![];
+        for k in 0..6 {
+            let mut h = vec![];
+            while h.len() < 200 + 300 * k {
+                match rng.below(3) {
+                    0 => {
+                        let p: &Vec<u8> = rng.pick(&pats);
+                        h.extend_from_slice(p);
+                    }
+                    1 => {
+                        let p = rng.pick(&pats);
+                        h.extend_from_slice(&p[..p.len() - 1]);
+                    }
+                    _ => h.push(*rng.pick(&alpha)),
+                }
+            }
+            let sp = if anchored {
+                // an anchored search needs an occurrence at its start to say anything
+                let p = rng.pick(&pats).clone();
+                let at = rng.below(h.len());
+                let at = at.min(h.len().saturating_sub(p.len()));
+                h[at..at + p.len()].copy_from_slice(&p);
+                (at, h.len())
+            } else if k % 2 == 0 {
+                (0, h.len())
+            } else {
+                gen::span(&mut rng, h.len())
+            };
+            hays.push((h, sp));
+        }
+        if let Ok(Ok(s)) = guard(|| cfgs[i % cfgs.len()].build(&pats)) {
+            let b = crate::sem::Built { cfg: cfgs[i % cfgs.len()], s };
+            for (h, sp) in &hays {
+                crate::sem::check_find_and_iter(rep, &pats, &b, h, *sp, anchored);
+            }
+        }
+        c04_e2e_one(rep, &pats, &cfgs, &hays, anchored);
+        rep.tally("huge_automata_lists");
+    }
     let _ = Tier::Quick;
 }
 
